@@ -106,8 +106,12 @@ var c08Bools = []c08Path{
 		}
 		return vs[0].ReadOnly, true
 	}},
-	{"networks.n.internal", func(d map[string]any, v any) { d["networks"] = map[string]any{c08NetName: map[string]any{"internal": v}} }, func(p *types.Project) (any, bool) { return p.Networks[c08NetName].Internal, true }},
-	{"networks.n.attachable", func(d map[string]any, v any) { d["networks"] = map[string]any{c08NetName: map[string]any{"attachable": v}} }, func(p *types.Project) (any, bool) { return p.Networks[c08NetName].Attachable, true }},
+	{"networks.n.internal", func(d map[string]any, v any) {
+		d["networks"] = map[string]any{c08NetName: map[string]any{"internal": v}}
+	}, func(p *types.Project) (any, bool) { return p.Networks[c08NetName].Internal, true }},
+	{"networks.n.attachable", func(d map[string]any, v any) {
+		d["networks"] = map[string]any{c08NetName: map[string]any{"attachable": v}}
+	}, func(p *types.Project) (any, bool) { return p.Networks[c08NetName].Attachable, true }},
 	{"volumes.v.external", func(d map[string]any, v any) { d["volumes"] = map[string]any{"v": map[string]any{"external": v}} }, func(p *types.Project) (any, bool) { return bool(p.Volumes["v"].External), true }},
 }
 
